@@ -66,22 +66,16 @@ pub fn run(ops: &str, out: &mut impl Write, orc: &mut impl Write) {
                     (Some(p), "P") if p.clone().encode() == bytes => Some(p.clone()),
                     _ => None,
                 };
-                let mut got: Option<Result<PDU, std::io::Error>> = None;
-                for _attempt in 0..3 {
-                    match &via_transport {
-                        Some(p) => tx.request(dest.clone(), p.clone()).await.expect("send through transport"),
-                        None => {
-                            raw.send_to(&bytes, raddr).await.expect("send raw");
-                        }
-                    }
-                    match tokio::time::timeout(Duration::from_millis(2000), rx.receive()).await {
-                        Ok(r) => {
-                            got = Some(r);
-                            break;
-                        }
-                        Err(_) => continue, // nothing arrived: the buffer is untouched, send again
+                // lock-step: exactly one datagram is in flight, so loopback cannot drop or reorder it.
+                // It is sent once (a second copy could be mistaken for the next datagram) and awaited
+                // with a generous bound.
+                match &via_transport {
+                    Some(p) => tx.request(dest.clone(), p.clone()).await.expect("send through transport"),
+                    None => {
+                        raw.send_to(&bytes, raddr).await.expect("send raw");
                     }
                 }
+                let got: Option<Result<PDU, std::io::Error>> = tokio::time::timeout(Duration::from_secs(30), rx.receive()).await.ok();
                 let res: Option<PDU> = match got {
                     Some(Ok(p)) => Some(p),
                     Some(Err(e)) if e.kind() == std::io::ErrorKind::InvalidData => None,
